@@ -22,8 +22,10 @@ type clntGen func(r *rng, thorough bool, f func(c *clntCase))
 func clntStream(seed uint64, thorough bool, pair bool, g clntGen) {
 	r := newRng(seed)
 	run := &clntRunner{}
+	n := 0
 	g(r, thorough, func(c *clntCase) {
 		c.pair = pair
+		clntRotateCtor(c, &n)
 		run.add(c)
 	})
 	run.flush()
@@ -33,12 +35,16 @@ func clntStream(seed uint64, thorough bool, pair bool, g clntGen) {
 func clntStreamC19(seed uint64, thorough bool) {
 	r := newRng(seed)
 	run := &clntRunner{}
-	i := 0
+	i, n := 0, 0
 	sample := func(every int) func(c *clntCase) {
 		return func(c *clntCase) {
 			i++
 			if thorough || i%every == 0 {
+				if c.ctor == 4 {
+					return // nothing to compare without hooks and without a trace
+				}
 				c.pair = true
+				clntRotateCtor(c, &n)
 				run.add(c)
 			}
 		}
@@ -47,6 +53,14 @@ func clntStreamC19(seed uint64, thorough bool) {
 	clntGenC08(r, false, sample(2))
 	clntGenC12(r, false, sample(12))
 	run.flush()
+}
+
+// clntRotateCtor: every case is run with one of the public constructors that yield its client kind
+func clntRotateCtor(c *clntCase, n *int) {
+	*n++
+	if !c.ctorSet {
+		c.ctor = (*n*7 + *n/5) % clntCtors[c.kind]
+	}
 }
 
 // ---------- requests ----------
@@ -472,6 +486,67 @@ func clntGenC07(r *rng, thorough bool, f func(c *clntCase)) {
 			}
 		}
 	}
+	// maximum-size replies (TCP 259 / 260, RTU 255 / 256, ...) whole and fragmented, with EVERY
+	// public constructor that yields the client kind
+	for kind := 0; kind < 3; kind++ {
+		for ctor := 0; ctor < clntCtors[kind]; ctor++ {
+			for _, m := range clntMaxReplies(r, clntFrOf(kind)) {
+				b := m.rep.bytes
+				n := len(b)
+				scripts := [][]clntStep{clntCutAs(b, []int{0}), clntCutAs(b, []int{1}), clntCutAs(b, []int{2})}
+				for _, c := range []int{1, 7, 8, 9, n / 2, n - 9, n - 3, n - 2, n - 1, 1 + r.intn(n-1)} {
+					if c > 0 && c < n {
+						scripts = append(scripts, clntCutAs(b, clntClassMixes[(c+ctor)%len(clntClassMixes)], c))
+					}
+				}
+				if n > 200 {
+					scripts = append(scripts, clntCutAs(b, []int{0, 1, 0, 0}, 100, 200, 250))
+				}
+				for _, sc := range scripts {
+					i++
+					f(&clntCase{kind: kind, conn: true, flusher: i%3 == 0, hooks: i%2 == 0, rq: m.q,
+						sc: clntScript{steps: sc}, want: m.rep.want, ctor: ctor, ctorSet: true})
+				}
+			}
+		}
+	}
+	// NewTCPClient() / NewRTUClient(): no configuration, a real loopback connection.  Request types
+	// with an exact ExpectedResponseLength (the result does not depend on how the kernel segments the
+	// stream), exception replies, and maximum-size replies written in one piece
+	for kind := 0; kind < 2; kind++ {
+		fr := clntFrOf(kind)
+		types := []int{1, 2, 3, 4, 6, 15, 16}
+		if kind == 1 {
+			types = []int{15, 16}
+		}
+		blind := func(q *clntRq, rep clntReply, steps []clntStep) {
+			f(&clntCase{kind: kind, conn: true, rq: q, sc: clntScript{steps: steps}, want: rep.want, ctor: 4, ctorSet: true})
+		}
+		for _, fc := range types {
+			for variant := 0; variant < 4; variant++ {
+				q := clntMkRq(r, fc, fr, variant)
+				rep := q.reply(r)
+				b := rep.bytes
+				blind(q, rep, clntCut(b))
+				for k := 0; k < 3; k++ {
+					c := 1 + r.intn(len(b)-1)
+					blind(q, rep, []clntStep{clntData(b[:c]), clntQuiet(), clntData(b[c:])})
+				}
+				if len(b) > 20 {
+					blind(q, rep, clntCut(b, 5, 12))
+				}
+			}
+			q := clntMkRq(r, fc, fr, 1)
+			ex := q.exception(uint8(1 + r.intn(4)))
+			blind(q, ex, clntCut(ex.bytes))
+			blind(q, ex, clntCut(ex.bytes, 1+r.intn(len(ex.bytes)-1)))
+		}
+		for _, m := range clntMaxReplies(r, fr) {
+			if m.q.fc != 23 { // written in one piece: arrives in one read
+				blind(m.q, m.rep, clntCut(m.rep.bytes))
+			}
+		}
+	}
 	// a reply followed by a real stall: the total timer must not be needed
 	for kind := 0; kind < 3; kind++ {
 		for _, fc := range fcs {
@@ -798,6 +873,43 @@ func clntGenSeq(r *rng, thorough bool, f func(c *clntCase)) {
 			}
 			emit(true, normal(), closeOp, normal(), normal())
 			emit(true, closeOp, closeOp, normal())
+		}
+		// 2..4 successful read exchanges with DIFFERENT payloads on one client: what the first call
+		// returned must still be what it returned after the later calls
+		reads := 40
+		if thorough {
+			reads = 400
+		}
+		for j := 0; j < reads; j++ {
+			var ops []clntOp
+			if kind != 2 {
+				ops = append(ops, connect)
+			}
+			fc := 1 + r.intn(4)
+			variant := r.intn(4)
+			for l := 2 + r.intn(3); l > 0; l-- {
+				if r.intn(3) == 0 {
+					fc, variant = 1+r.intn(4), r.intn(4) // otherwise the same shape and size again
+				}
+				q := clntMkRq(r, fc, fr, variant)
+				if r.intn(2) == 0 {
+					q = clntMkRq(r, fc, fr, variant)
+				}
+				rep := q.reply(r)
+				b := rep.bytes
+				steps := clntCutAs(b, []int{r.intn(2)})
+				if len(b) > 3 && r.intn(2) == 0 {
+					steps = clntCutAs(b, clntClassMixes[r.intn(4)], 1+r.intn(len(b)-2)) // never at len-1 (D7)
+				}
+				ops = append(ops, clntOp{what: 2, rq: q, sc: clntScript{steps: steps}, want: rep.want})
+			}
+			if kind != 2 && r.intn(3) == 0 {
+				// FC23 completes on the network clients when the stream ends with the reply
+				q := clntMkRq(r, 23, fr, r.intn(4))
+				rep := q.reply(r)
+				ops = append(ops, clntOp{what: 2, rq: q, sc: clntScript{steps: clntCutAs(rep.bytes, []int{2})}, want: rep.want})
+			}
+			emit(true, ops...)
 		}
 		n := 150
 		if thorough {
